@@ -497,7 +497,7 @@ pub fn gen_other_item(t: &mut Tape, i: usize) -> ModItemSrc {
 pub fn gen_mod_item(t: &mut Tape, i: usize, cfg: &FnGenCfg) -> ModItemSrc {
     match t.weighted(&[5, 2, 1, 5]) {
         0 => {
-            let name = format!("vis_fn{i}");
+            let name = format!("{}_vis_fn{i}", crate::prog::NAME_POOL[(i * 5 + 3) % 8]);
             let vis = gen_explicit_vis(t);
             let (f, _) = gen_fn(t, &name, vis, cfg);
             let mut f = f;
@@ -507,7 +507,7 @@ pub fn gen_mod_item(t: &mut Tape, i: usize, cfg: &FnGenCfg) -> ModItemSrc {
             ModItemSrc { src: f.render(), kind: ModItemKind::VisibleFn(name), decoy: false }
         }
         1 => {
-            let name = format!("priv_fn{i}");
+            let name = format!("{}_priv_fn{i}", crate::prog::NAME_POOL[(i * 3 + 1) % 8]);
             let (mut f, _) = gen_fn(t, &name, String::new(), cfg);
             if f.body == ";" {
                 f.body = "{}".into();
